@@ -3,6 +3,7 @@ package main
 import (
 	"crypto/sha256"
 	"fmt"
+	"sort"
 
 	"github.com/aergoio/aergo/v2/account/key"
 	"github.com/aergoio/aergo/v2/config"
@@ -226,9 +227,34 @@ func mkTx(variant int) *types.Tx {
 		ChainIdHash: nb(l(5), "t", variant, 5),
 		Sign:        nb(l(6), "t", variant, 6),
 	}
+	if variant >= txTypeVariant0 {
+		// one variant per transaction type the protocol defines: an identifier or digest that
+		// leaves a field out for one type only (seed C19e) is seen by the same field mutations
+		body.Type = realTxTypes()[variant-txTypeVariant0]
+	}
 	tx := &types.Tx{Body: body}
 	tx.Hash = tx.CalculateTxHash()
 	return tx
+}
+
+const txTypeVariant0 = 8
+
+func realTxTypes() []types.TxType {
+	var ts []types.TxType
+	for k := range types.TxType_name {
+		ts = append(ts, types.TxType(k))
+	}
+	sort.Slice(ts, func(i, j int) bool { return ts[i] < ts[j] })
+	return ts
+}
+
+// txTypeVariants: the mkTx variants that carry the defined transaction types.
+func txTypeVariants() []int {
+	var vs []int
+	for i := range realTxTypes() {
+		vs = append(vs, txTypeVariant0+i)
+	}
+	return vs
 }
 
 var txFields = []fld[B]{
